@@ -5,7 +5,7 @@ from ..astutil import (U, dotted, get_class, get_method, walk_local, is_self_att
                        params, all_functions, classes)
 from ..cfg import CFG, calls_at
 from ..dataflow import ReachingDefs
-from ..guards import call_nodes, dominating_edges, cmp_parts, handler_catches, edge_successors
+from ..guards import call_nodes, dominating_edges, cmp_parts, handler_catches, edge_successors, is_none_test
 from ..engmodel import SESSION
 from ..source import AnalysisError
 
@@ -334,18 +334,26 @@ def run(ctx):
     mx = q[2]
     okmax = False
     if isinstance(mx, ast.Name):
-        vals = rd.values(stn, mx.id)
         srcs = set()
-        for v in vals:
+        for v in rd.values(stn, mx.id, deep=True):
             if isinstance(v, ast.AST) and is_self_attr(v, '_max_response_size'):
                 srcs.add('default')
-            elif isinstance(v, ast.Name):
-                vv = rd.values([d for d in rd.reaching(stn, mx.id) if d[1] is v][0][2], v.id)
-                if all(isinstance(x, tuple) and x[0] == 'unpack' and x[2] == 1 for x in vv):
-                    srcs.add('client')
+            elif isinstance(v, tuple) and v[0] == 'unpack' and v[2] == 1 and isinstance(v[1], ast.Call) and call_name(v[1]) == 'self._engine.process_request':
+                srcs.add('client')
+            elif isinstance(v, ast.Constant) and v.value is None:
+                srcs.add('none')
             else:
                 srcs.add('other')
-        okmax = srcs == {'default', 'client'}
+        guarded = True
+        if 'none' in srcs:
+            # "no client value" must not reach the comparison: every copy into the maximum happens under a truthiness / None test of the copied name
+            for var, val, dn in rd.reaching(stn, mx.id):
+                if isinstance(val, ast.Name) and dn is not None:
+                    tests = [t for t, lab in dominating_edges(g, dn)
+                             if (isinstance(t.stmt, ast.Name) and t.stmt.id == val.id and lab == 'T')
+                             or (is_none_test(t.stmt) and isinstance(is_none_test(t.stmt)[1], ast.Name) and is_none_test(t.stmt)[1].id == val.id)]
+                    guarded = guarded and bool(tests)
+        okmax = (srcs - {'none'}) == {'default', 'client'} and guarded
     ctx.check(okmax, 'C12.R5', '%s|maximum-size-source' % L, ssite, 'maximum = client value (component 1 of the engine result) when present, else the session default',
               'the maximum size compared is not the client-requested size / session default')
 
